@@ -171,12 +171,22 @@ fn render(ty: &Ty, out: &mut String) {
 			out.push(']');
 		}
 		Ty::Record { name, fields } => {
-			write!(out, "{{\"type\":\"record\",\"name\":\"{}\",\"fields\":[", type_name(*name)).unwrap();
+			// every other record carries attributes the crate has no use for but must preserve in the text it
+			// embeds in file headers: non-ASCII, escapes, a nested object
+			if name % 2 == 1 {
+				write!(out, "{{\"type\":\"record\",\"doc\":\"d\u{e9}j\u{e0} \\\"vu\\\" \\\\ \\u20ac \\n\",\"x-meta\":{{\"k\":[1,null,\"\u{1F600}\"]}},\"name\":\"{}\",\"fields\":[", type_name(*name)).unwrap();
+			} else {
+				write!(out, "{{\"type\":\"record\",\"name\":\"{}\",\"fields\":[", type_name(*name)).unwrap();
+			}
 			for (i, (f, t)) in fields.iter().enumerate() {
 				if i > 0 {
 					out.push(',');
 				}
-				write!(out, "{{\"name\":\"{}\",\"type\":", field_name(*f)).unwrap();
+				if f % 5 == 2 {
+					write!(out, "{{\"name\":\"{}\",\"doc\":\"champ \u{e9}\\t\",\"type\":", field_name(*f)).unwrap();
+				} else {
+					write!(out, "{{\"name\":\"{}\",\"type\":", field_name(*f)).unwrap();
+				}
 				render(t, out);
 				out.push('}');
 			}
@@ -220,6 +230,108 @@ fn render(ty: &Ty, out: &mut String) {
 			type_name(*name)
 		)
 		.unwrap(),
+	}
+}
+
+/// Another JSON spelling of the same schema with a FORWARD reference: the first named type that is referenced
+/// again later (outside its own definition) is written by name at its first occurrence and defined in full at that
+/// later reference. Same canonical form, same schema; `None` when no such type exists.
+pub fn to_json_forward(root: &Ty) -> Option<String> {
+	// find a definition (not the root itself, which cannot be replaced by a bare name... it can, but then the document
+	// would start with a name: keep it simple) followed, in document order and outside its own body, by a Ref to it
+	fn refs_outside(ty: &Ty, name: u16, inside_def: bool, found: &mut bool) {
+		match ty {
+			Ty::Ref(n) if *n == name && !inside_def => *found = true,
+			Ty::Array(t) | Ty::Map(t) => refs_outside(t, name, inside_def, found),
+			Ty::Union(ts) => ts.iter().for_each(|t| refs_outside(t, name, inside_def, found)),
+			Ty::Record { name: n, fields } => {
+				let inside = inside_def || *n == name;
+				fields.iter().for_each(|(_, t)| refs_outside(t, name, inside, found));
+			}
+			_ => {}
+		}
+	}
+	let mut defined = vec![];
+	collect_defined(root, &mut defined);
+	let root_name = match root {
+		Ty::Record { name, .. } | Ty::Enum { name, .. } | Ty::Fixed { name, .. } | Ty::DecimalFixed { name, .. } | Ty::Duration { name } => Some(*name),
+		_ => None,
+	};
+	let target = defined.into_iter().find(|n| {
+		if Some(*n) == root_name {
+			return false;
+		}
+		let mut f = false;
+		refs_outside(root, *n, false, &mut f);
+		f
+	})?;
+	// render: at the definition of `target` write its name and remember the definition; at the first Ref(target)
+	// outside the definition write the remembered definition
+	struct St<'a> {
+		target: u16,
+		def: Option<&'a Ty>,
+		placed: bool,
+	}
+	fn go<'a>(ty: &'a Ty, st: &mut St<'a>, out: &mut String) {
+		use std::fmt::Write;
+		let is_target_def = match ty {
+			Ty::Record { name, .. } | Ty::Enum { name, .. } | Ty::Fixed { name, .. } | Ty::DecimalFixed { name, .. } | Ty::Duration { name } => *name == st.target,
+			_ => false,
+		};
+		if is_target_def && st.def.is_none() {
+			st.def = Some(ty);
+			write!(out, "\"{}\"", type_name(st.target)).unwrap();
+			return;
+		}
+		match ty {
+			Ty::Ref(n) if *n == st.target && !st.placed && st.def.is_some() => {
+				st.placed = true;
+				let def = st.def.unwrap();
+				// the definition's own body may refer to itself by name: plain rendering is right for it
+				render(def, out);
+			}
+			Ty::Array(t) => {
+				out.push_str("{\"type\":\"array\",\"items\":");
+				go(t, st, out);
+				out.push('}');
+			}
+			Ty::Map(t) => {
+				out.push_str("{\"type\":\"map\",\"values\":");
+				go(t, st, out);
+				out.push('}');
+			}
+			Ty::Union(ts) => {
+				out.push('[');
+				for (i, t) in ts.iter().enumerate() {
+					if i > 0 {
+						out.push(',');
+					}
+					go(t, st, out);
+				}
+				out.push(']');
+			}
+			Ty::Record { name, fields } => {
+				write!(out, "{{\"type\":\"record\",\"name\":\"{}\",\"fields\":[", type_name(*name)).unwrap();
+				for (i, (f, t)) in fields.iter().enumerate() {
+					if i > 0 {
+						out.push(',');
+					}
+					write!(out, "{{\"name\":\"{}\",\"type\":", field_name(*f)).unwrap();
+					go(t, st, out);
+					out.push('}');
+				}
+				out.push_str("]}");
+			}
+			other => render(other, out),
+		}
+	}
+	let mut st = St { target, def: None, placed: false };
+	let mut out = String::new();
+	go(root, &mut st, &mut out);
+	if st.placed {
+		Some(out)
+	} else {
+		None
 	}
 }
 
